@@ -300,6 +300,12 @@ func cmdSend(args []string) {
 			if rng.Intn(2) == 0 {
 				sizes = []int{4, 300}
 			}
+			if round == 0 && transport == "mem" {
+				// the largest payload the protocol admits, and its neighbour, among small messages of the other
+				// senders: a message the sender may send is a message the receiver takes
+				sizes = []int{4, 300, int(net.MaxPayloadSize) - 1, int(net.MaxPayloadSize)}
+				senders, per = 2, 4
+			}
 			a := &direction{name: transport + "/accepted->dialed", from: srv, to: cli, logged: 1, tr: trA, senders: senders, per: per, sizes: sizes}
 			b := &direction{name: transport + "/dialed->accepted", from: cli, to: srv, logged: 0, tr: trB, senders: 2 + rng.Intn(3), per: per, sizes: sizes}
 			a.prepare()
